@@ -269,7 +269,10 @@ def next_pc(o, t):
         return t.arg(1).as_long() if irsem._decide(t.arg(0)) else t.arg(2).as_long()
     if core.ENG is None:
         raise MachineFault("undecidable jump target")
-    return core.ENG.choose(core.from_bv(t, signed=False))
+    try:
+        return core.ENG.choose(core.from_bv(t, signed=False))
+    except core.SymbolicEscape:
+        raise MachineFault("jump to an address that the inputs can set to more than 8 values")
 
 
 def reg_width_value(o, v, n, signed=None):
